@@ -126,7 +126,7 @@ func genExtValues(rg *rand.Rand) []tls.TLSExtension {
 func TestC08(t *testing.T) {
 	r := mon.New("C08", "every built-in TLSExtension type (31 structs) x generated field values (lists of 1..n entries, boundary lengths): Len() vs bytes Read() writes into a canary-tailed buffer, header/inner length prefixes under the strict grammar, io.ErrShortBuffer on every shorter buffer (all sizes for n<=96, sampled above), and for writers Read(Write(body)) reproduces the bytes modulo the documented normalisations (independent normaliser). distinct = (type, encoded length) pairs")
 	defer r.Finish(t)
-	rounds := mon.Pick(3000, 30000)
+	rounds := mon.Pick(3000, 300000)
 	typesSeen := map[string]int{}
 	for i := 0; i < rounds; i++ {
 		rg := Sub("C08", i)
